@@ -195,6 +195,29 @@ theorem pump_good (fuel : Nat) (s : St) (f : Nat) (hb : Base s f) (hc : Cov s f)
               · rw [hheld] at hit; cases hit; simp only at hlt; omega
             · exact Or.inr (Or.inr h)
         · rw [if_neg hk]
+          by_cases hu : k ∈ s.undecodable
+          · -- the stored bytes do not decompress: dropped
+            rw [if_pos hu]
+            have hH : ∀ it, (none : Option (Nat × Batch)) = some it →
+                (∀ g ∈ it.2, g.idx ≤ it.1) ∧ it.1 < s.fifo.nextFrom ∧ it.1 ≤ s.fifo.highest ∧
+                (it ∈ s.fifo.items ∨ it.1 ≤ s.maxIn) ∧ (s.hwm < it.1 ∨ it.1 ≤ s.maxIn) := by
+              intro it hit; cases hit
+            apply ih
+            · exact { hb with heldI := hH }
+            · intro g hg hgf
+              rcases hc g hg hgf with h | h | h
+              · left
+                rcases h with (h | ⟨d, hd, hgd⟩) | h
+                · exact Or.inl (Or.inl h)
+                · exact Or.inl (Or.inr ⟨d, by simp [hd], hgd⟩)
+                · exact Or.inr h
+              · rcases h with h | ⟨it, hit, _, hgi⟩
+                · exact Or.inr (Or.inl (Or.inl h))
+                · rw [hheld] at hit; cases hit
+                  left; left; right
+                  exact ⟨(k, b), by simp, hgi⟩
+              · exact Or.inr (Or.inr h)
+          rw [if_neg hu]
           by_cases hup : s.up = true
           · -- delivered
             rw [if_pos hup]
